@@ -183,13 +183,15 @@ def run(tier: str) -> int:
                 nodes, fail_at = tracegen.inject(base, kind, k if k is not None else 0)
                 detail = rnd.choice(tracegen.DETAILS)
                 to_file = rnd.random() < 0.4
-                run = tracegen.traced_run(nodes, {}, detail=detail, to_file=to_file)
+                in_launch = rnd.random() < 0.3         # the run of a run-space launch: same lifecycle, same flush and close
+                run = tracegen.traced_run(nodes, {}, detail=detail, to_file=to_file, launch_context=in_launch)
+                stats["in_launch_context"] = stats.get("in_launch_context", 0) + (1 if in_launch else 0)
                 stats["runs"] += 1
                 stats["by_kind"][kind] = stats["by_kind"].get(kind, 0) + 1
                 stats["by_detail"][detail] = stats["by_detail"].get(detail, 0) + 1
                 stats["file_mode" if to_file else "dir_mode"] += 1
                 stats["fail_positions"][str(fail_at)] = stats["fail_positions"].get(str(fail_at), 0) + 1
-                case = {"fault": kind, "position": fail_at, "detail": detail, "output": "file" if to_file else "directory"}
+                case = {"fault": kind, "position": fail_at, "detail": detail, "output": "file" if to_file else "directory", "launch_context": in_launch}
                 got = check_trace(rep, case, run, nodes, fail_at, kind, stats)
                 # the same fault plan for the Lean model
                 cls = "base" if kind == "keyboard-interrupt" else "exception"
